@@ -1140,8 +1140,23 @@ class NestedPipeFunc(PipeFunc):
             return None
         _validate_combinable_mapspecs(mapspecs)
         axes = mapspec_axes(mapspecs)  # type: ignore[arg-type]
+        nested_outputs = set(self._all_outputs)
+        for f in self.pipeline.functions:
+            assert f.mapspec is not None
+            elementwise = {
+                s.name
+                for s in f.mapspec.inputs
+                if not (None in s.axes and s.name in nested_outputs)
+            }
+            if reduced := (set(f.parameters) - set(f._bound) - elementwise) & set(axes):
+                msg = (
+                    f"Cannot combine MapSpecs: `{f.__name__}` takes (part of) `{reduced}` as whole"
+                    " array(s), but another nested function maps over them (this is a reduction)."
+                )
+                raise ValueError(msg)
         return MapSpec(
-            tuple(ArraySpec(n, axes[n]) for n in sorted(self.parameters)),
+            # parameters that no nested MapSpec mentions are passed whole
+            tuple(ArraySpec(n, axes[n]) for n in sorted(self.parameters) if n in axes),
             tuple(ArraySpec(n, axes[n]) for n in sorted(at_least_tuple(self.output_name))),
             _is_generated=True,
         )
